@@ -361,8 +361,17 @@ def run_scenario(spec, fault, cont):
                 out["gen_runs"] = gen_counts.get("n")
                 out["bytes"] = export(m if isinstance(m, h.Module) else m)
             else:
-                out["bytes"] = export(b.module(top))
-                out["cont"] = "returned"
+                # the failed call repeated unchanged - three times over: every repeat reports what the first call reported
+                for attempt in (1, 2, 3):
+                    try:
+                        out["bytes"] = export(b.module(top))
+                        out["cont"] = "returned"
+                        break
+                    except RecursionError:
+                        raise
+                    except Exception as e_:
+                        if attempt == 3 or not (out.get("first_line") and out["first_line"] in str(e_)):
+                            raise
         elif cont == "repair_retry":
             state["armed"] = False
             E.reset_elaborator()
